@@ -67,6 +67,11 @@ for cfg, defs in CONFIGS.items():
     builds[cfg] = P.build(d, 'flat', defines=defs, tag='cfg_' + cfg)
 for lvl in ('O0', 'O1', 'O3'):
     builds[lvl] = P.build(d, 'flat_' + lvl, tag='opt_' + lvl)
+# GLM's feature detection is compiler specific (clang: __has_feature, g++: GLM_LANG), so under the language-level macros g++ and clang compile
+# different bodies: the translator check compares the generated C with a clang-built native reference for these configurations
+for cfg in builds:
+    if cfg.startswith('cxx'):
+        builds[cfg].native_cc = 'clang++-14'
 
 
 ZERO_SIGN_FREE = False
